@@ -139,28 +139,21 @@ def run(ctx):
                           "a learner id is returned as promotable without passing %s (e.g. learner D with match 0 while commit is 10000 is promoted and immediately counts toward quorum)" % nm,
                           loc(mb, bi), wit and bpath(mb, wit))
     cu = ctx.anchor(F.method, "LeaderState", "is_learner_caught_up")
-    if cu:
-        cmps = [st["rv"] for blk in cu.blocks for st in blk["st"] if st.get("rv", {}).get("k") == "bin" and st["rv"]["op"] in ("Lt", "Le", "Gt", "Ge", "Eq", "Ne")
-                and not ("c" in st["rv"]["a"] and "c" in st["rv"]["b"])]
-        ok = False
-        desc = "%d comparisons" % len(cmps)
-        if len(cmps) == 1:
-            c = cmps[0]
-
-            def pset(o):
-                return set(x[1] for x in Slice(F, cu).operand(o).sources if x[0] == "param")
-
-            def is_gap(o):
-                s = Slice(F, cu).operand(o)
-                subs = [t for (_bi, t) in s.call_sites if re.search(r"saturating_sub$", strip_generics(callee_key(t)))]
-                return len(subs) == 1 and pset(subs[0]["args"][0]) == {3} and pset(subs[0]["args"][1]) == {2}
-
-            def is_thr(o):
-                return pset(o) == {4}
-            ok = (c["op"] in ("Le", "Lt") and is_gap(c["a"]) and is_thr(c["b"])) or (c["op"] in ("Ge", "Gt") and is_thr(c["a"]) and is_gap(c["b"]))
-            desc = c["op"]
-        ctx.check("C27-c", "is_learner_caught_up#normal-form", ok, "caught up == leader_commit -sat match_index <= threshold",
-                  "is_learner_caught_up is not `leader_commit.saturating_sub(match_index) <= threshold` (%s): a lagging learner can be promoted" % desc, "%s:%s" % (cu.file, cu.line))
+    paths = cu and table_of(ctx, "C27-c", cu, "is_learner_caught_up")
+    if paths:
+        rets = [p.ret for p in paths if p.ret[0] != "const"]
+        tb0 = pathsym.Table(paths, extra_exprs=rets)
+        q_commit = pick(tb0.quant, par(3), "")
+        q_thr = pick(tb0.quant, par(4), "")
+        q_match = pick(tb0.quant, lambda e: e[0] == "unwrap_or" and par(2)(e[1]) and e[2] == ("const", "0"), "") or pick(tb0.quant, par(2), "")
+        where = "%s:%s" % (cu.file, cu.line)
+        if None in (q_commit, q_thr, q_match) or len(tb0.quant) != 3 or tb0.bools:
+            ctx.bad("C27-c", "is_learner_caught_up#table", "UNRECOGNISED-FORM: is_learner_caught_up inputs %s %s" % ([sym_show(q) for q in tb0.quant], [sym_show(b) for b in tb0.bools]), where)
+        else:
+            # necessary direction only: lagging by more than the threshold => not caught up
+            run_table(ctx, "C27-c", "is_learner_caught_up#table", paths, lambda p, w: w.truth(p.ret),
+                      lambda w: False if max(0, w.int(q_commit) - w.int(q_match)) > w.int(q_thr) else None, where, extra_exprs=rets,
+                      what="a learner whose match index (None = 0) lags the leader commit by more than the threshold is never reported caught up")
 
     # ---------------------------------------------------------------- C27-d join answered after commit; duplicates rejected
     jr = all_agg_sites(F, "cluster::JoinResponse", None, crates=("d_engine_core", "d_engine_server"))
